@@ -304,7 +304,7 @@ func c07handlers(c *Ctx, l *lab.Lab) {
 			reg, _ := spec.Files(req)
 			for _, pc := range keepC {
 				md := msgDesc(reg, pc.In)
-				fd := md.Fields().ByName("val_x")
+				fd := md.Fields().ByName(protoreflect.Name(pc.Field))
 				sig, ok := mod.Methods[lowerFirst(pc.Method)]
 				if !ok {
 					continue
